@@ -19,6 +19,9 @@ LEARNERS = ["dict_ndl", "ndl:threading", "ndl:openmp"]
 POL = [2]      # duplicate policy of the trial being generated
 
 
+FORM = {}
+
+
 def mkjob(learner, es, p, pol=2, weights=None, alpha=None):
     pol = POL[0]
     j = {"events": es, "pol": pol, "beta1": rwlib.nd(p["beta1"]), "beta2": rwlib.nd(p["beta2"]),
@@ -28,7 +31,12 @@ def mkjob(learner, es, p, pol=2, weights=None, alpha=None):
     if learner == "dict_ndl":
         j.update({"kind": "dict_ndl", "make_data_array": False})
     else:
-        j.update({"kind": "ndl", "method": learner.split(":")[1], "n_jobs": 2, "n_outcomes_per_job": 2})
+        j.update({"kind": "ndl", "method": learner.split(":")[1], "n_jobs": FORM.get("n_jobs", 2), "n_outcomes_per_job": 2})
+        # per trial: the events reach the learner as a path or as a generator, in one temporary file or in several
+        if FORM.get("events_per_file"):
+            j["events_per_file"] = FORM["events_per_file"]
+        if FORM.get("as_generator"):
+            j["as_generator"] = True
     if weights is not None:
         j["weights"] = weights
     return j
@@ -68,7 +76,10 @@ def run(ctx):
         no, nc = rwlib.label_sets(es)
         outs, cues = list(no.names), list(nc.names)
         POL[0] = pol
-        tr = {"learner": learner, "es": es, "p": p, "rel": {}, "pol": pol}
+        FORM.clear()
+        FORM.update({"events_per_file": rng.choice([None, 2, 2, 3]), "as_generator": rng.random() < 0.4,
+                     "n_jobs": rng.choice([2, 3, 4])})
+        tr = {"learner": learner, "es": es, "p": p, "rel": {}, "pol": pol, "form": dict(FORM)}
         base = add(mkjob(learner, es, p))
         tr["base"] = base
         # R1 row locality: keep only the target outcome (others removed) / rename the others
@@ -119,7 +130,7 @@ def run(ctx):
     law_violation = False
     for tr in trials:
         d = {"learner": tr["learner"], "events": tr["es"], "p": {k: str(v) for k, v in tr["p"].items()},
-             "remove_duplicates": {0: None, 1: True, 2: False}[tr["pol"]]}
+             "remove_duplicates": {0: None, 1: True, 2: False}[tr["pol"]], "input_form": tr["form"]}
         rep.hist("policy", d["remove_duplicates"])
         rep.case(d, nontrivial=len(tr["es"]) >= 2)
         rep.hist("learner", tr["learner"])
